@@ -729,7 +729,8 @@ def ex_continue(st, s):
 
 
 def ex_funcdef(st, s):
-    st.locals[s.name] = Val(T.FN, FnV('closure', s.name, node=s, env=st.locals))
+    st.locals[s.name] = Val(T.FN, FnV('closure', s.name, node=s, env=st.locals,
+                                      cls='%s.%s' % (st.ex.func_key, s.name)))
 
 
 def ex_for(st, s):
